@@ -3,7 +3,7 @@
 (* are independent observations of the real serializer/parser; each is      *)
 (* judged against RESP.tla.  An event that satisfies its predicate prints    *)
 (* <<"OK", sc>>; the driver treats every scenario without an OK as rejected. *)
-EXTENDS RESP, TLC, Json
+EXTENDS RESP, TLC, Json, SequencesExt
 CONSTANT TraceFile
 VARIABLE l
 
@@ -87,8 +87,8 @@ BigReadOK(e) ==
   \/ /\ e.eof /\ e.rest = <<>> /\ e.term = <<>>
 
 (* C02: a stream of canonical encodings delivered in the logged chunks.      *)
-RECURSIVE Sum(_, _)
-Sum(c, k) == IF k > Len(c) THEN 0 ELSE c[k] + Sum(c, k + 1)
+\* (the sum of the chunk sizes is a fold with a Java implementation: a user-level recursion tens of thousands deep -
+\* one level per chunk of a bytewise delivery - costs TLC minutes)
 RECURSIVE EndsOK(_, _, _, _)
 EndsOK(b, ends, i, k) == k > Len(ends) \/ LET r == Dec(b, i) IN
                            r.ok /\ ends[k] = r.next - 1 /\ EndsOK(b, ends, r.next, k + 1)
@@ -96,7 +96,7 @@ EndsOK(b, ends, i, k) == k > Len(ends) \/ LET r == Dec(b, i) IN
 ChunkedOK(e) ==
   LET ds == DecStream(e.stream) IN
   /\ ds.st = "complete"                          \* the driver sent a valid stream
-  /\ Sum(e.chunks, 1) = Len(e.stream)            \* ... split into these reads
+  /\ FoldLeft(LAMBDA a, c : a + c, 0, e.chunks) = Len(e.stream)   \* ... split into these reads
   /\ e.res = LenientSeq(ds.vals) \o <<Eof>>     \* exactly those values, in order, then end of stream
   /\ Len(e.ends) = Len(ds.vals)
   /\ EndsOK(e.stream, e.ends, 1, 1)              \* each value consumed exactly its own bytes
